@@ -291,9 +291,10 @@ def run_shard(shard, rec):
     if shard['kind'] == 'degenerate':
         check_degenerate(rec)
     elif shard['kind'] == 'hyp':
-        strategy = st.tuples(wbspec.specs(), st.sampled_from(['mem', 'mem',
-                                                              'xlsx']),
-                             seq_strategy())
+        strategy = st.tuples(
+            wbspec.specs(with_computed=True,
+                         focus='context' if shard['seed'] % 2 else None),
+            st.sampled_from(['mem', 'mem', 'xlsx']), seq_strategy())
         hyp.search(rec, strategy,
                    lambda c: check_case(rec, c[0], c[1], c[2]),
                    shard['n'], shard['seed'])
@@ -301,7 +302,9 @@ def run_shard(shard, rec):
         # all n! orders of first evaluation for small workbooks; the access
         # path of each step is derived from the step so that orders x paths
         # are both covered
-        strategy = wbspec.specs(max_formulas=5, with_second_sheet=False)
+        strategy = wbspec.specs(
+            max_formulas=5, with_second_sheet=False, with_computed=True,
+            focus='context' if shard['seed'] % 2 else None)
 
         def body(spec):
             forms = spec['formulas'][:6]
